@@ -372,7 +372,7 @@ def gen_fn(fs, cfg, log, vac=False):
         if fs.sig is None:
             raise ExtractError('%s: no //@sig given' % where)
         sig = fs.sig
-    head = '// @FN %s src=%s:%d\n' % (where, fs.file, srcline)
+    head = '// @FN %s src=%s:%d%s\n' % (where, fs.file, srcline, (' props=' + ','.join(fs.props)) if fs.props else '')
     return head + sig.rstrip() + '\n' + inner + '\n// @ENDFN\n'
 
 
